@@ -5,7 +5,7 @@ the oracle is intrinsic (no panic, library error type, position inside the sourc
 import json, os, re
 import vcommon as vc
 
-BAD = re.compile(r"(PANIC\(|FOREIGN\(|BADPOS\(|ERRORPANIC\(|KITLOSS\(|HANG|no_EOF)")
+BAD = re.compile(r"(PANIC\(|FOREIGN\(|BADPOS\(|ERRORPANIC\(|KITLOSS\(|RUNTIME\(|EMPTYMSG\(|HANG|no_EOF)")
 TOKENS = [b"{", b"}", b"[", b"]", b'"', b":", b",", b"//", b"/*", b"*/", b"#", b"###", b"@", b"|", b"\n", b"\r\n", b" ", b"\t",
           b"0", b"1", b"-", b".", b"e", b"E", b"+", b"\\", b"\\u", b"a", b"true", b"null", b"@t", b"\x00", b"\x1f", b"\x7f", b"\xff",
           b"// {", b"{min: 1}", b'{type: "@t"}', b"optional", b'{or: [', b"/", b"*", b"nullable: true", b'{enum: @e}', b"{regex: \"a\"}"]
@@ -150,7 +150,7 @@ def gen_cases(ctx, quick):
     return cases
 
 
-SIG = re.compile(r"(\w+):((?:PANIC|KITPANIC|KITLOSS|FOREIGN|BADPOS|ERRORPANIC)\([^;]*\)|HANG|L\d+@\d+;no_EOF)")
+SIG = re.compile(r"(\w+):((?:PANIC|KITPANIC|KITLOSS|FOREIGN|BADPOS|ERRORPANIC|RUNTIME|EMPTYMSG)\([^;]*\)|HANG|L\d+@\d+;no_EOF)")
 
 
 def signature(out):
@@ -194,6 +194,16 @@ def run(ctx):
                     t = l.split()
                     cases.append((t[0], bytes.fromhex(t[1]) if t[1] != "-" else b"", (bytes.fromhex(t[2]) if t[2] != "-" else b"") if len(t) > 2 else None))
     cases += gen_cases(ctx, quick)
+    # numbers whose exponent is near the machine word, as documents and as examples; an enum rule with a comment before its first value
+    for sc in (b"1 // {max: 100}", b"1 // {min: 0}", b"1.5", b'{\n  "a": 1 // {min: 0}\n}', b"[1]", b"1 // {enum: [1, 2]}", b"1 // {const: true}"):
+        for num in (b"1e9223372036854775806", b"1e-9223372036854775807", b"1e9223372036854775807", b"-1.5E+9223372036854775800", b"1e2147483648", b"0.1e-2147483649"):
+            doc = num if not sc.startswith((b"{", b"[")) else (b'{"a": ' + num + b"}" if sc.startswith(b"{") else b"[" + num + b"]")
+            cases.append(("schema", sc, doc))
+    for sc in (b"1", b"{}", b'{\n  "a": 1\n}', b"@t"):
+        for doc in (b"", b" ", b"\n\t "):
+            cases.append(("schema", sc, doc))
+    cases.append(("schema", b"1 /* {enum: [ // note before the first value\n 1]} */", b"1"))
+    cases.append(("schema", b"1 // {min: 1e9223372036854775806}", b"1"))
     cases = [c if len(c) == 4 else c + (None,) for c in cases]
     lines = ["%s %s%s%s" % (k, hexs(s), (" " + hexs(d)) if d is not None else "", (" " + hexs(t)) if t is not None else "") for k, s, d, t in cases]
     # dedupe, keep order
